@@ -173,4 +173,11 @@ Definition dispatch_registry (op : pstr) (a : val) : option val :=
       do watch <- as_listof as_nat watch;
       Some (VList (run_history ct watch (init ct n) [] ops))
     | _ => None end))
+  else if op_is' op "histories" then Some (or_bad (
+    (* a batch of histories sharing class table, slots and observed classes *)
+    match a with VList [ct; n; hs; watch] =>
+      do ct <- as_listof as_cinfo ct; do n <- as_nat n; do hs <- as_listof (as_listof as_op) hs;
+      do watch <- as_listof as_nat watch;
+      Some (VList (map (fun ops => VList (run_history ct watch (init ct n) [] ops)) hs))
+    | _ => None end))
   else None.
